@@ -72,9 +72,10 @@ def gen_removed(run):
         calls = []
         for _ in range(rng.randrange(1, 6)):
             data = data_for(rng, g, 14, p_true=rng.choice([0.3, 0.6, 0.9, 1.0]), p_err=rng.choice([0, 0.05]))
-            code = rng.choice([1, 2, 2, 0, 5])
+            code = rng.choice([1, 2, 2, 0, 5, 3, 3])
             a = rng.choice(live) if rng.random() < 0.9 else rng.randrange(0, nn)
-            calls.append(call(code, a, 0, None, data if code != 2 else data[:1]))
+            b = (rng.choice(live) if rng.random() < 0.9 else rng.randrange(0, nn)) if code == 3 else 0
+            calls.append(call(code, a, b, None, data if code != 2 else data[:1]))
         # one case in four: the graph object first held a bigger model (all active) and was cleared before this model was built
         prefill = rng.randrange(1, 4) if rng.random() < 0.25 else 0
         if prefill and rng.random() < 0.5: removed = []
@@ -104,6 +105,37 @@ def oracle_removed(case, impl, spec):
         if ag[0] != (1 if cnt == nlive else 0): return f"after call {i}: all_active={ag[0]} but {cnt}/{nlive} live members active (removed {sorted(removed)})"
         if ag[1] != fbits(float(cnt)): return f"after call {i}: number_active differs from the recount {cnt} over the live members {mem} (removed {sorted(removed)})"
         if nlive > 0 and ag[2] != fbits(cnt / nlive * 100.0): return f"after call {i}: percent_active differs from {cnt}/{nlive}*100"
+    # SHORTEST-PATH REASONING on a graph with removed causaloids: both ends live and a path reported by the graph store -> exactly the
+    # causaloids of that path are evaluated, in order, up to the first one that is not true, and the verdict is their conjunction;
+    # an end that is not a live causaloid, or no path -> an error and no evaluation
+    live_set = set(k for k in range(case.meta["n"]) if k not in removed)
+    if top.get("kind") == 2:
+        ids_ = [kd["id"] for kd in top["kids"]]
+        for i, (c, sg) in enumerate(zip(calls, segs)):
+            if c["code"] != 3: continue
+            pth = sg.get("path")
+            ends_live = c["a"] in live_set and c["b"] in live_set
+            if not ends_live or not pth or c["a"] == c["b"]:
+                # identical start and stop are refused by get_shortest_path ("Start and Stop node identical"), as the C10 model has it
+                if sg["res"] != -1 or sg["log"]:
+                    return (f"call {i}: reason_shortest_path_between_causes({c['a']},{c['b']}) answered {sg['res']} with {len(sg['log'])} evaluations although "
+                            + ("an end is not a live causaloid" if not ends_live else ("start and stop are identical" if c["a"] == c["b"] else "the graph store reports no path"))
+                            + f" (removed {sorted(removed)})")
+                continue
+            if any(k not in live_set for k in pth) or pth[0] != c["a"] or pth[-1] != c["b"]:
+                return f"call {i}: the graph store's path {pth} does not run from {c['a']} to {c['b']} over live causaloids (removed {sorted(removed)})"
+            if sg["res"] == -1 and not sg["log"]:
+                return (f"call {i}: reason_shortest_path_between_causes({c['a']},{c['b']}) failed without evaluating anything although both ends are live causaloids and the graph "
+                        f"store reports the path {pth} (removed {sorted(removed)})")
+            vs = [tag_verdict(t, o) for (t, o) in sg["log"]]
+            want_ids = [ids_[k] for k in pth][:len(sg["log"])]
+            got_ids = [o // 10 for (_, o) in sg["log"]]
+            if all(x < len(c["data"]) for x in want_ids) and got_ids != want_ids:
+                return f"call {i}: evaluated causaloid ids {got_ids}, the path {pth} has ids {[ids_[k] for k in pth]}"
+            if any(v != "T" for v in vs[:-1]): return f"call {i}: evaluation went on after a causaloid that was not true ({vs})"
+            exp = {"T": 1, "F": 0, "E": -1}[vs[-1]] if vs else None
+            if vs and vs[-1] == "T" and len(vs) != len(pth): return f"call {i}: only {len(vs)} of the {len(pth)} causaloids of the path were evaluated and all were true"
+            if exp is not None and sg["res"] != exp: return f"call {i}: verdict {sg['res']} but the evaluated causaloids gave {vs}"
     # REACHABILITY: a true verdict of reason_all_causes / reason_subgraph_from_cause means every LIVE causaloid reachable from the start
     # over the remaining edges was evaluated (each evaluation is logged with its observation = 10 * id + code). Judged only when the
     # node count is not itself a live index: the traversal stops at "last index = node count", which on a graph with removed
